@@ -43,6 +43,14 @@ func seeds(seed int64, per int, out string) [][]byte {
 				g.MaxList = []int{4, 1, 8, 2}[k%4]
 				g.MinList = []int{5, 0, 3, 1}[k%4]
 				g.Rich = k%2 == 0
+				g.Full = 0
+				if k == 0 && tries == 0 {
+					g.Full = 1 // the first seed of a message type carries every IE alternative once and every OPTIONAL
+				}
+				if tries > k {
+					// the previous attempt could not be encoded (a message without IEs cannot hold five) or was too long: plain random values
+					g.MinList, g.Rich, g.MaxList = 0, tries%2 == 0, 2
+				}
 				pdu := ngapType.NGAPPDU{Present: top.present}
 				pv := reflect.ValueOf(&pdu).Elem()
 				msg := pv.Field(top.present)
